@@ -134,6 +134,8 @@ def run_group(item):
         law('TRANSPOSE', 'C13', B=rowst)
     # join = filter_tables then apply_matcher
     lt, rt = record.make_df(base['L'], base.get('lattr', 's')), record.make_df(base['R'], base.get('rattr', 's'))
+    if base.get('same_object'):
+        rt = lt
     tok = record.make_tokenizer(base['tok'], return_set=(not ed))
     thr = record.threshold_value(base)
     lk, rk = base.get('lkey', 'id'), base.get('rkey', 'id')
@@ -225,6 +227,23 @@ def make_groups(tier, seed):
             first = 'OVERLAP'
         groups.append({'case': case, 't2': t2, 'first_stage': first, 'validate': True,
                        'n_jobs_f': rng.choice([1, 2]), 'n_jobs_m': rng.choice([1, 3]), 'src': 'random#%d' % gi})
+    # self-joins: ONE DataFrame object passed as both tables, joined on two different string columns
+    for gi in range(24 if tier == 'quick' else 120):
+        tok = {'kind': 'ws', 'rs': 1}
+        n = rng.randint(5, 10)
+        rows = []
+        for j in range(n):
+            a = rand_string(rng, tok, 5)
+            b = a if rng.random() < 0.3 else rand_string(rng, tok, 5)
+            rows.append([j + 1, a, b])
+        spec = {'cols': ['id', 's', 's2'], 'rows': rows, 'index': None, 'strcols': ['s', 's2'], 'sdtype': 'object'}
+        api = SET_APIS[gi % 4]
+        a_, b_ = sorted(rng.sample(THS[:8], 2), key=lambda t: t[0] / t[1])
+        case = {'kind': 'join', 'api': api, 'meas': record.JOINS[api], 'filt': 'NONE', 'tok': tok, 'L': spec, 'R': spec,
+                'same_object': 1, 'lattr': 's', 'rattr': 's2', 't': a_, 'op': '>=', 'ae': 1, 'am': 0, 'sc': 1,
+                'lout': None, 'rout': None, 'n_jobs': 1}
+        groups.append({'case': case, 't2': b_, 'first_stage': 'OVERLAP' if api == 'overlap_coefficient_join' else 'SIZE',
+                       'validate': True, 'n_jobs_f': 1, 'n_jobs_m': rng.choice([1, 2]), 'src': 'selfjoin#%d' % gi})
     # worst-case witness tables at the grid points where threshold * size is an exact integer
     # (float noise can flip a ceil / floor exactly there); all laws are checked on them
     from fractions import Fraction as F
